@@ -40,7 +40,7 @@ REAL_VS_STUB = {
     'stub': ['the initial key, the round schedule (cohorts, weights, leaf classes) and the retry/restart faults come from the simulator'],
 }
 AGGS = ['uniform', 'uniform_arith', 'rotated', 'drive', 'terngrad']
-LEAF_CLASSES = ['random', 'random', 'size1', 'constant', 'zero', 'ongrid', 'huge', 'half']
+LEAF_CLASSES = ['random', 'random', 'size1', 'constant', 'zero', 'ongrid', 'huge', 'half', 'offset']
 
 
 def plan(tier):
@@ -59,7 +59,7 @@ def generate(seed, tier):
         'data_seed': g.randint(0, 2**30), 'ops': []}
   o = r.sub('ops')
   if g.chance(0.1) and sc['agg'] != 'drive':
-    sc['bias'] = {'rounds': plan(tier)['bias_rounds'], 'size': o.choice([1, 3, 8, 16]), 'cls': o.choice(['random', 'half', 'huge'])}
+    sc['bias'] = {'rounds': plan(tier)['bias_rounds'], 'size': o.choice([1, 3, 8, 16]), 'cls': o.choice(['random', 'half', 'huge', 'offset'])}
     return sc
   if g.chance(0.09):
     n = o.choice([66, 130, 200, 260])
@@ -102,6 +102,8 @@ def _leaf(cls, size, levels, rs):
     if size > 1:
       v[1] = np.float32(1e-6)
     return v, 'huge'
+  if cls == 'offset':     # spread tiny compared with the mean (a bias vector around 3000 +- 1)
+    return (np.float32(rs.choice([3000.0, -250.0])) + rs.uniform(-1, 1, size=(size,))).astype(np.float32), 'offset'
   if cls == 'half':
     L1 = levels - 1
     v = (rs.randint(0, L1, size=(size,)) + 0.5).astype(np.float32)
